@@ -97,6 +97,22 @@ def c05_bank_lockout(v, case):
     return [list(x) for x in ob] == [list(vb)]
 
 
+def c05_direction_window_restarts_at_refresh(v, case):
+    """The anti-starvation counters of the multiplexer are reloaded whenever the FSM leaves READ / WRITE, also for a
+    refresh: a direction window that is longer than the refresh interval never expires.  Accepts only witnesses of a
+    configuration in which the window of the direction *opposite* to the starved command is longer than the refresh
+    interval."""
+    if v.get("kind") not in ("victim-data-not-served-in-bound", "victim-command-not-accepted-in-bound"):
+        return False
+    w = v.get("windows") or {}
+    op = v.get("op") or {}
+    if not w or "we" not in op:
+        return False
+    opposite = w.get("read_time", 0) if op["we"] else w.get("write_time", 0)
+    ri = w.get("refresh_interval")     # None: refresh disabled
+    return ri is not None and opposite > ri
+
+
 # ------------------------------------------------------------------------------------------------ C13
 def c13_bypass_partial_word_flush(v, case):
     """LiteDRAMFIFO(with_bypass=True) with a DRAM word wider than the stream word: when the DRAM path runs empty while the
